@@ -1,5 +1,6 @@
 """Registry: which units, harnesses and witness families decide which property."""
 import os
+import re
 import random
 import sys
 
@@ -68,4 +69,178 @@ PROPS['C07'] = dict(
     bounded=['witness family: image lengths 0,1,15,16,17,255,256,4097,65535,65536,65537 (quick) plus every length below 600 and the '
              '128 KiB / 1 MiB / 2 MiB boundaries (thorough) written by the real write_code_hex / write_eeprom_hex and decoded by an '
              'independent reader -- bounded, covers the assumed ihex rendering and CRLF conversion only on those inputs'],
+)
+
+
+# ------------------------------------------------------------------------------------------------ ENC: C01 C03 C04
+def _enc_harnesses(filter_fn=None):
+    def f(tier):
+        import isa_gen
+        hs = isa_gen.harness_names(tier)
+        if filter_fn:
+            hs = [h for h in hs if filter_fn(h[0])]
+        return hs
+    return f
+
+
+def _enc_cex(slice_name, failure):
+    import enc_replay
+    return enc_replay.cex_for(slice_name, failure)
+
+
+def _enc_witness_from_cex(f):
+    import enc_replay
+    return enc_replay.witness_from_cex(f)
+
+
+def _is_rel_harness(h):
+    import isa
+    m = re.match(r'enc_one_(\w+?)_(\d+)$', h)
+    if not m:
+        return False
+    return any(k in ('REL7', 'REL12') for r in isa.ROWS if r['mn'] == m.group(1) for k in r['ops'])
+
+
+def witnesses_enc(only_rel=False):
+    def run(tier, seed):
+        """binding witnesses: one source line per ISA row and boundary operand tuple through the real grammar + pipeline"""
+        import isa
+        rnd = random.Random(seed or 11)
+        jobs, exp, names = [], [], []
+
+        def vals(kind):
+            if kind in isa.IDX:
+                return [None]
+            cls, _, legal, _ = isa.KINDS[kind]
+            if cls == 'reg':
+                good = [r for r in range(32) if legal(r)]
+                return [good[0], good[-1], rnd.choice(good)]
+            if cls == 'expr':
+                cand = [-129, -128, -1, 0, 1, 7, 8, 31, 32, 63, 64, 0x3f, 0x40, 0xbf, 0xc0, 255, 256, 65535, 65536, 4194303, 4194304]
+                good = [k for k in cand if legal(k)]
+                bad = [k for k in cand if not legal(k)]
+                return [good[0], good[-1], rnd.choice(good)] + bad[:1] + bad[-1:]
+            return ['rel']
+        for r in isa.ROWS:
+            if only_rel and not any(k in ('REL7', 'REL12') for k in r['ops']):
+                continue
+            per_op = [vals(k) for k in r['ops']]
+            n = max([len(v) for v in per_op] + [1])
+            for t in range(n):
+                addr = [0, 5, 300][t % 3]
+                txt, ors = [], []
+                for kind, vs in zip(r['ops'], per_op):
+                    v = vs[t % len(vs)]
+                    if kind in isa.IDX:
+                        if isa.IDX[kind][2]:
+                            q = [0, 63, 17, 64, -1][t % 5]
+                            txt.append('%s+%s' % (kind[0], q if q >= 0 else '(%d)' % q))
+                            ors.append(('idx', kind, q))
+                        else:
+                            txt.append(kind)
+                            ors.append(('idx', kind, 0))
+                    elif v == 'rel':
+                        lim = 64 if kind == 'REL7' else 2048
+                        d = [-lim, lim - 1, 0, lim, -lim - 1][t % 5]
+                        k = addr + 1 + d
+                        txt.append(str(k) if k >= 0 else '(%d)' % k)
+                        ors.append(('expr', k))
+                    elif isa.KINDS[kind][0] == 'reg':
+                        txt.append(('r%d' if t % 2 == 0 else 'R%d') % v)
+                        ors.append(('reg', v))
+                    else:
+                        txt.append(('0x%x' % v) if (t % 2 and v >= 0) else (str(v) if v >= 0 else '(%d)' % v))
+                        ors.append(('expr', v))
+                avr8l = r['core'] == 'avr8l'
+                src = ('.device ATtiny20\n' if avr8l else '') + ('.org %d\n' % addr if addr else '') + '%s %s\n' % (r['mn'] if t % 2 == 0 else r['mn'].upper(), ', '.join(txt))
+                w = isa.encode(r['mn'], ors, addr, avr8l)
+                jobs.append('build\n' + src)
+                exp.append((addr, None if w is None else isa.le_bytes(w).hex()))
+                names.append('asm:%s' % src.strip().replace('\n', ' ; '))
+        res = replay.run_jobs(jobs)
+        out = []
+        for name, job, (addr, e), r in zip(names, jobs, exp, res):
+            if r.get('status') == 'ok':
+                got = r['code'][4 * addr:]
+            elif r.get('status') == 'err':
+                got = None
+            else:
+                got = r.get('status')
+            ok = (got == e)
+            out.append(WitnessResult(name, job, ok, got if got is not None else 'error: ' + r.get('err', '')[:120],
+                                     e if e is not None else 'error', 'enc/'))
+        return out
+    return run
+
+
+ENC_ASSUME = [
+    'grammar: that the text of a mnemonic / register / pointer form is parsed to the Operation / Reg8 / IndexOps variant of the same name '
+    '(peg grammar + strum from_str) is outside the verifiers; bound only by the native binding witnesses (one line per ISA row)',
+    'ENC slice abstraction: an expression operand is represented by its value (Expr::Const(v) stands for any tree evaluating to v; '
+    'Expr::run has its own contract in unit EXPR); process observes expressions only through run/get_byte/get_bit_index/get_r8',
+    'R3: &dyn Context is the abstract view of its only implementor CommonContext (alias table, Avr8l flag, symbol lookup)',
+    'R13: byteorder LittleEndian::write_u16 stores the low byte first (external crate)',
+    'Reg8::number/SFlags::number: `self as u16` = declaration index -- checked bit-precisely by Kani (part of every leaf), assumed with its range in Verus',
+    'oracle: spec/isa.py transcribes the AVR Instruction Set Manual; its self-consistency (no two canonical rows share a word) is re-checked on every thorough run',
+]
+
+PROPS['C01'] = dict(
+    level_text='Proof: (Kani/CBMC, complete: loop-free code over the full value domain) for each of the 116 mnemonic x operand-signature '
+               'forms, the real instruction::process returns exactly the word(s) of the AVR ISA table, low byte first, for ALL register '
+               'numbers, i64 constants, displacements, pointer forms, addresses (u32), both cores and any .def alias binding, and Err '
+               'outside the legal sets; (Verus, unbounded) the emitted length is 2*words(op) and info().len == words(op) for every operation.',
+    level_note='assumes the grammar maps mnemonic/register text to the like-named enum variant (binding witnesses only), byteorder, '
+               'and the leaf abstraction of expression operands; placement in the image is C02',
+    technique='Kani contract harnesses (process == generated ISA oracle) on the extracted encoder + Verus structural contract',
+    verus=['encv'],
+    kani=[dict(slice='enc', harnesses=_enc_harnesses(), cex=_enc_cex)],
+    cex_replay=_enc_witness_from_cex,
+    witnesses=witnesses_enc(),
+    functions=['instruction::process', 'Operation::info', 'Reg8::number', 'SFlags::number', 'BranchT::number',
+               'InstructionOps::get_r8/get_expr/get_index', 'Expr::get_byte', 'Expr::get_bit_index (src/instruction/*.rs, src/expr.rs)'],
+    explanation='Kani: 116 harnesses, each one call of the extracted process() with symbolic operand values checked against the oracle '
+                'generated from spec/isa.py (exact bytes on Ok, Err exactly outside the legal set). Verus: process() verbatim, contract '
+                'over operand vectors of every length (count/kind/length/panic-freedom).',
+    assumptions=ENC_ASSUME,
+    trusted=['spec/isa.py (ISA table) and spec/isa_gen.py (oracle generator)'],
+    bounded=['binding witnesses: ~500 concrete source lines (every ISA row at boundary operand values, both letter cases) through the '
+             'real build_str, compared with the python oracle -- bounded, covers the assumed grammar mapping only on those inputs'],
+    not_decided=['mnemonic/register recognition by the PEG grammar (assumed)', 'the decoder clause is implemented as a self-consistency '
+                 'check of the oracle table (thorough tier), not as a contract on /repo code'],
+)
+PROPS['C04'] = dict(
+    level_text='Proof: (Verus, unbounded) process() is Ok only if the operand count and the kind of every operand are the ones the ISA '
+               'defines for the mnemonic -- for operand vectors of every length; (Kani, complete) within the right kinds it is Ok exactly '
+               'on the legal value sets of the ISA table and then emits the reference encoding; get_byte/get_bit_index ranges are part of '
+               'the extracted slice.',
+    level_note='same assumptions as C01; where the ISA leaves a spelling open (displacement form under ld/st, plain forms under ldd/std) '
+               'the clause is the one of observe_at: if Ok, the bytes are the reference encoding of the pointer form as written',
+    technique='Verus postcondition Ok ==> shape_ok on the extracted process + Kani contract harnesses against the ISA oracle (Err side)',
+    verus=['encv'],
+    kani=[dict(slice='enc', harnesses=_enc_harnesses(), cex=_enc_cex)],
+    cex_replay=_enc_witness_from_cex,
+    witnesses=witnesses_enc(),
+    functions=PROPS['C01']['functions'],
+    explanation=PROPS['C01']['explanation'],
+    assumptions=ENC_ASSUME,
+    trusted=PROPS['C01']['trusted'],
+    bounded=PROPS['C01']['bounded'],
+)
+PROPS['C03'] = dict(
+    level_text='Proof (Kani/CBMC, complete): for rjmp, rcall, brbs, brbc and the 18 br* aliases, for every target k: i64 and every '
+               'instruction address (u32): process() is Ok iff d = k-(addr+1) (computed in 128-bit in the oracle) lies in the field range, '
+               'and then the field is d mod 2^7 / 2^12 in the right bits with the right condition bits; otherwise Err, never a wrapped '
+               'field, never a panic. That pass 2 passes the address of the item being emitted and sets pc to it is the call-site '
+               'obligation of unit PASS2 (C02).',
+    level_note='label values and the address passed to process() are C02 (unit PASS2); grammar and expression parsing assumed',
+    technique='Kani contract harnesses on the extracted relative-branch arms of process against the ISA oracle',
+    verus=['encv'],
+    kani=[dict(slice='enc', harnesses=_enc_harnesses(_is_rel_harness), cex=_enc_cex)],
+    cex_replay=_enc_witness_from_cex,
+    witnesses=witnesses_enc(only_rel=True),
+    functions=['instruction::process (Rjmp|Rcall and Br arms)', 'BranchT::number', 'Expr::get_bit_index'],
+    explanation='22 Kani harnesses (every relative mnemonic) over all (k, addr) pairs: 2^64 x 2^32, symbolically.',
+    assumptions=ENC_ASSUME,
+    trusted=PROPS['C01']['trusted'],
+    bounded=['binding witnesses at both range limits and one beyond, forward and backward, at three addresses'],
 )
